@@ -59,6 +59,8 @@ def lib_source(rng, p, deps, feats):
     out.append("fn %s_arr(n: int32) -> int32 { let a = [n, n + 1, n + 2]; let v: Vec[int32] = vec_new(); let v = vec_push(vec_push(v, array_get(a, 1)), array_get(a, 2)); vec_get(v, 0) * vec_len(v) + (n, (n + 1, true)).0 }" % lo)
     if deps:
         d = deps[0]
+        # a value of a type of the dependency handed on to this package's importers (who may not import the dependency)
+        out.append("fn %s_dep(n: int32) -> %s::%sS { %s::%s_mk(n) }" % (lo, d, d, d, d.lower()))
         out.append("fn %s_via(n: int32) -> string { %s::%s_show(%s::%s_mk(n)) + %s::%s_match(%s::%s_en(n)) }" % (lo, d, d.lower(), d, d.lower(), d, d.lower(), d, d.lower()))
         out.append("fn %s_gen(n: int32) -> int32 { let bx: %s::%sBox[int32] = %s::%s_id(%s::%s_box(n)); let by: %sBox[int32] = %s_box(n + 1); bx.get() + by.get() }" % (lo, d, d, d, d.lower(), d, d.lower(), p, lo))
         feats.add("cross-package-generic")
@@ -109,6 +111,13 @@ def gen_project(rng):
         ]
         if shape[d]:
             cands += ["string_println(%s::%s_via(%d))" % (d, lo, n), "string_println(int32_to_string(%s::%s_gen(%d)))" % (d, lo, n)]
+            dd0 = shape[d][0]
+            # implicit uses of a package reached only through %s: a field, a trait impl, a coercion (whether Main imports it or not)
+            cands += [
+                "let iv%s%d = %s::%s_dep(%d); let _ = string_println(int32_to_string(iv%s%d.v))" % (lo, n, d, lo, n, lo, n),
+                "string_println(%s::%sT::show(%s::%s_dep(%d)))" % (d, d, d, lo, n),
+                "let id%s%d: dyn %s::%sT = %s::%s_dep(%d); let _ = string_println(%s::%sT::show(id%s%d))" % (lo, n, d, d, d, lo, n, d, d, lo, n),
+            ]
         for dd in shape[d]:
             if dd in main_imps:
                 cands.append("string_println(%s::%sT::show(%s::%s_mk(%d)))" % (dd, dd, d, lo, n))  # may or may not have the impl
